@@ -24,7 +24,7 @@ def cfg_filebuild(maxn, widths, collapse="seeded", invs=None, props=("Terminates
 
 
 def cfg_fileread(n, w, k, last, depth, readers=(1, 2), missing=(), export=True):
-    invs = ["Inv_C04_PosNonNeg", "Inv_C04_Seek", "Inv_C04_Read", "Inv_C05_NoOverfetch", "Inv_C12_ErrIffMissing"]
+    invs = ["Inv_C04_PosNonNeg", "Inv_C04_Seek", "Inv_C04_Read", "Inv_C05_NoOverfetch", "Inv_C12_ErrIffMissing", "Inv_C12_HealedReadsSucceed"]
     if export:
         invs.append("Export")
     return ("SPECIFICATION Spec\nCONSTANTS\n  Readers = {%s}\n  N = %d\n  W = %d\n  K = %d\n  LastLen = %d\n  Depth = %d\n"
@@ -194,7 +194,8 @@ def run_C08(ctx):
     r = vlib.model_check(ctx, "MCHamtRef", cfg_hamtref(4 if q else 5), name="MCHamtRef", want_cases=True)
     cases = r["cases"]
     if q:
-        cases = cases[:: max(1, len(cases) // 1500)]
+        import random
+        cases = random.Random(ctx.seed).sample(cases, min(len(cases), 1500))
     casefile = ctx.path("hamt_hist.jsonl")
     open(casefile, "w").write("\n".join(cases) + "\n")
     ctx.extra["tlc_histories_exported"] = len(r["cases"])
@@ -358,8 +359,8 @@ def codec_cases(ctx, b, q, fuzzevery=25):
         total += len(cases)
         cap = 12000 if q else 400000
         if len(cases) > cap:
-            step = len(cases) / cap
-            cases = [cases[int(i * step)] for i in range(cap)]
+            import random
+            cases = random.Random(ctx.seed).sample(cases, cap)
         cf_ = ctx.path(f"codec_{name}.jsonl")
         open(cf_, "w").write("\n".join(cases) + "\n")
         traces.append(gen(ctx, b, "codec_" + name, ["codec-replay", "-cases", cf_, "-vecs", 2 if q else 6, "-fuzzevery", fuzzevery]))
@@ -445,7 +446,10 @@ def path_traces(ctx, b, targets, mps, passive, sample):
     cases = r["cases"]
     ctx.extra["tlc_path_cases_exported"] = ctx.extra.get("tlc_path_cases_exported", 0) + len(cases)
     if sample > 1:
-        cases = cases[ctx.seed % sample::sample]
+        # a seeded random sample: TLC emits the cases in a regular order (target x matchPath cycle with period 8),
+        # so a fixed stride would always pick the same combination
+        import random
+        cases = random.Random(ctx.seed).sample(cases, max(1, len(cases) // sample))
     cf_ = ctx.path("path_cases_%d.jsonl" % len(ctx.mc_runs))
     open(cf_, "w").write("\n".join(cases) + "\n")
     mode = ["-consume"] if passive == "consume" else (["-passive"] if passive else [])
@@ -735,7 +739,7 @@ PLANS = {
              "the FileRead machine to depth 2 (thorough: 3) on single-block, wrapped and multi-level files and checks the "
              "io.ReadSeeker invariants and reader independence on the model; each history is replayed on real readers and "
              "the recorded trace validated by TLC (Inv_C04_*), plus long random histories."),
-    "C05": P(run_mixed("C05", [F_RANGE, F_SEQ, F_WRITERS], [("sets", "8,256", FAN_T), ("faults", "8", "8,16,256"), ("boxo", "8,256", FAN_T)]),
+    "C05": P(run_mixed("C05", [F_RANGE, F_SEQ, F_WRITERS], [("sets", "8,256", FAN_T), ("coldlookups", "8,16,256", FAN_T), ("faults", "8", "8,16,256"), ("boxo", "8,256", FAN_T)]),
              "TLC proves on FileRead/HamtRead that the lazy algorithms only load blocks whose span intersects the requested "
              "range / shards on the name's digit path; on the real code every range [a,b) of every enumerated file shape and "
              "every member and non-member lookup of every enumerated HAMT is run, and each recorded load is checked by TLC "
